@@ -24,6 +24,7 @@ RULE = (
     "Non-trivial: >= 3 gates of >= 2 types and at least one of: constant, blackbox, escaped name, output "
     "that is an input, 1-input n-ary gate, n-ary gate with fan-in >= 3. Distinct by digest."
 )
+RULE += " Added after seeded-change rounds 4-5: nets whose names start with tie_, cells called BUF / Nand / AND ..., fmt='verilog' with any file suffix (.bench, .sv, none), escaped identifiers containing /* */ //."
 ASSUMPTIONS = [
     "reference simulator cgv.refsim",
     "names tie_0/tie_1/tie_x are excluded by the property itself (reader's reserved constant names)",
